@@ -451,7 +451,7 @@ func TestCheck(t *testing.T) {
 		}
 	}
 	// explicit small matrices drawn element by element (good shrinking)
-	cfg.SetRapid(cfg.N(1500, 30000), 1)
+	cfg.SetRapid(cfg.N(6000, 40000), 1)
 	rapid.Check(t, func(rt *rapid.T) {
 		n := rapid.IntRange(1, 5).Draw(rt, "n")
 		el := rapid.SliceOfN(rapid.OneOf(rapid.Uint16Range(0, 3), rapid.Uint16()), n*n, n*n).Draw(rt, "elems")
@@ -461,7 +461,7 @@ func TestCheck(t *testing.T) {
 	})
 	// generated structured matrices
 	big := cfg.N(110, 300)
-	cfg.SetRapid(cfg.N(400, 2500), 2)
+	cfg.SetRapid(cfg.N(1500, 4000), 2)
 	rapid.Check(t, func(rt *rapid.T) {
 		var n int
 		switch rapid.IntRange(0, 9).Draw(rt, "nclass") {
